@@ -129,7 +129,7 @@ impl Check for C18 {
 fn strategy(tier: Tier) -> BoxedStrategy<Case> {
     let kmax = tier.pick(40usize, 2000usize);
     let nmax = tier.pick(2_000usize, 200_000usize);
-    (prop_oneof![3 => 1usize..=8, 3 => 1usize..=40, 1 => 1usize..=kmax], rng_spec(), any::<u16>(), 0u8..10, prop_oneof![3 => Just(0u16), 1 => any::<u16>()], prop_oneof![2 => Just(vec![]), 1 => prop::collection::vec(prop_oneof![Just(0u16), 0u16..6, 0u16..300], 1..6)])
+    (prop_oneof![3 => 1usize..=8, 3 => 1usize..=40, 1 => 1usize..=kmax], rng_spec(), any::<u16>(), 0u8..10, prop_oneof![3 => Just(0u16), 1 => any::<u16>()], prop_oneof![2 => Just(vec![]), 1 => prop::collection::vec(prop_oneof![4 => Just(0u16), 4 => 0u16..6, 4 => 0u16..300, 1 => 300u16..5000], 1..6)])
         .prop_map(move |(k, rng, nsel, mode, pre, chunks)| {
             // n across the three phases and their borders
             let n = match mode {
